@@ -736,8 +736,8 @@ class Gen:
     # -- top level ---------------------------------------------------------------------------------------------
     KINDS = ("qid", "op", "circuit", "frozen", "circuitop", "shared", "gate", "moment", "mkey", "pstring",
              "psum", "dps", "result", "sympy", "tableau", "cliffgate", "resolver", "sweep", "list", "dict",
-             "duration", "phasor", "coupler", "condition", "vendor", "collide", "lineardict")
-    WEIGHTS = (6, 8, 10, 8, 10, 8, 6, 4, 3, 4, 2, 3, 3, 3, 3, 2, 2, 2, 4, 2, 1, 2, 4, 4, 4, 4, 2)
+             "duration", "phasor", "coupler", "condition", "vendor", "collide", "lineardict", "channelgate")
+    WEIGHTS = (6, 8, 10, 8, 10, 8, 6, 4, 3, 4, 2, 3, 3, 3, 3, 2, 2, 2, 4, 2, 1, 2, 4, 4, 4, 4, 2, 3)
 
     def value(self, allow_container=True):
         """(kind, recipe)"""
@@ -806,6 +806,17 @@ class Gen:
             return kind, self.vendor()
         if kind == "collide":
             return kind, self.collide()
+        if kind == "channelgate":
+            # a bare KrausChannel / MixedUnitaryChannel (unhashable, numpy payloads, == through np.allclose)
+            self.flags.add("numpy-payload")
+            key = t.pick((None, "ck"), "channelgate.key")
+            p0 = [[["i", 1], ["i", 0]], [["i", 0], ["i", 0]]]
+            p1 = [[["i", 0], ["i", 0]], [["i", 0], ["i", 1]]]
+            x = [[["i", 0], ["i", 1]], [["i", 1], ["i", 0]]]
+            eye = [[["i", 1], ["i", 0]], [["i", 0], ["i", 1]]]
+            if t.draw(2, "channelgate.kind") == 0:
+                return kind, ["kraus", [p0, p1] if t.draw(2, "channelgate.ops") == 0 else [eye], key]
+            return kind, ["mixedunitary", [[["f", 1, 2], eye], [["f", 1, 2], x]], key]
         if kind == "lineardict":
             keys = t.pick((("a", "b"), ("x",), (["a", "b"], "c"), ([1, 2],)), "lineardict.keys")
             if any(isinstance(k, list) for k in keys):
@@ -1152,6 +1163,8 @@ def storage_variant(tape, recipe):
                 return
             if r and r[0] == "matrix":
                 sites.append((path, "matrix"))
+            if r and r[0] in ("kraus", "mixedunitary"):
+                sites.append((path, "resize"))
             for i, x in enumerate(r):
                 walk(x, path + (i,))
         elif isinstance(r, dict):
@@ -1177,6 +1190,15 @@ def storage_variant(tape, recipe):
         elif kind == "zero" and target[0] == "f":
             node[last] = ["nz"]
             done.append("-0.0")
+        elif kind == "resize" and target[0] in ("kraus", "mixedunitary"):
+            # a sibling of ANOTHER size: certainly not equal, but == must say so rather than raise
+            eye4 = [[["i", int(i == j)] for j in range(4)] for i in range(4)]
+            new = ["kraus", [eye4], target[2]] if target[0] == "kraus" else ["mixedunitary", [[["i", 1], eye4]], target[2]]
+            if path:
+                node[last] = new
+            else:
+                twin = new
+            done.append("other-size")
         elif kind == "matrix" and target[0] == "matrix":
             opts = dict(target[4]) if len(target) > 4 else {}
             opts["dtype"] = tape.pick(("complex128", "float64", "complex64", "int64"), "twin.dtype")
